@@ -498,6 +498,50 @@ example :
                                           ("get", .obj [("schema", .obj [("$ref", .str "#/components/schemas/A")])])])])] => true
      | _ => false) = true := by decide
 
+/-! ## keys of the map-like containers and of the named maps -/
+
+/-- One parse+serialise of a map-like container (Paths / Responses / Callback) gives back exactly the keys that were
+    written — same spelling (no case folding, no normalisation: `2xx` stays `2xx` next to `2XX`), same number, same
+    order — `__origin__` apart, whatever the entries are and whatever happens inside them. -/
+theorem maplike_keeps_keys (T : List Desc) (f : Shape → JV → Res JV) (w : String) (d : Desc) (kvs out : Obj)
+    (hd : findDesc T w = some d) (h : stepMaplike T f w (.obj kvs) = .ok (.obj out)) :
+    out.map (·.1) = (kvs.filter (fun kv => kv.1 != "__origin__")).map (·.1) := by
+  simp only [stepMaplike, hd] at h
+  cases hm : mapKV (fun k x => if isExtKey k then .ok x else entryStep T f (entryShapeOf d) x)
+      (kvs.filter (fun kv => kv.1 != "__origin__")) with
+  | error e => simp [hm, Res.wrap] at h
+  | ok o =>
+    simp only [hm, Res.wrap, Except.ok.injEq, JV.obj.injEq] at h
+    subst h
+    exact mapKV_keys _ _ _ hm
+
+/-- … and so do the named maps (components collections, properties, content, encoding, …): every key as written -/
+theorem namedMap_keeps_keys (T : List Desc) (f : Shape → JV → Res JV) (s : Shape) (kvs out : Obj) :
+    (stepMap f s (.obj kvs) = .ok (.obj out) → out.map (·.1) = kvs.map (·.1)) ∧
+    (stepPMap T f s (.obj kvs) = .ok (.obj out) → out.map (·.1) = kvs.map (·.1)) := by
+  constructor
+  · intro h
+    simp only [stepMap] at h
+    cases hm : mapKV (fun _ x => f s (nullFix s x)) kvs with
+    | error e => simp [hm, Res.wrap] at h
+    | ok o =>
+      simp only [hm, Res.wrap, Except.ok.injEq, JV.obj.injEq] at h
+      subst h
+      exact mapKV_keys _ _ _ hm
+  · intro h
+    simp only [stepPMap] at h
+    cases hm : mapKV (fun _ x => entryStep T f s x) kvs with
+    | error e => simp [hm, Res.wrap] at h
+    | ok o =>
+      simp only [hm, Res.wrap, Except.ok.injEq, JV.obj.injEq] at h
+      subst h
+      exact mapKV_keys _ _ _ hm
+
+/-- the three map-like containers are rows of the regenerated table (so `findDesc` finds them) -/
+theorem maplike_rows :
+    (["openapi3.Paths", "openapi3.Responses", "openapi3.Callback"].map fun w => (findDesc descriptors w).isSome) =
+      [true, true, true] := by decide
+
 /-! ## the Loader route: the loader keeps every `Ref` text (table C03RefWrites, regenerated from openapi3/loader.go) -/
 
 /-- the tree model's loader keeps the reference text of every node it touches … -/
